@@ -425,6 +425,8 @@ class Documents(Stream):
             {"doc": [d("b", ("$(1bad)", "n"))], "env": []},
             {"doc": [d("b", ("$a", "s")), d("c", ("$a", "d"))], "env": [["a", "$b"]]},
             {"doc": [d("s.t.a", ("1", "n")), ["s", "s.t", 0, [d("b", ("$a", "n"), ("$(t.a)", "n"), ("$(s.t.a)", "n"))]]], "env": []},
+            # diff mode: an unresolved reference in front of text that comes from a resolved one keeps its parentheses
+            {"doc": [d("u", ("abc", "n")), d("e", ("", "d")), d("x", ("$v$u", "n"), ("$(v)$(e)$u", "d"), ("$v$(e).$u", "n"), ("$(v.w)$u", "n"))], "env": []},
             # a scope whose name is a proper prefix of the first component of a reference is not that component
             {"doc": [d("x", ("0", "n")), ["s", "st", 0, [d("x", ("1", "n"))]], ["s", "s", 0, [d("x", ("2", "n")), d("q", ("$(st.x)", "n"), ("$(sx.x)", "n"))]]], "env": []},
             {"doc": [d("x", ("0", "n")), ["s", "run", 0, [d("s.x", ("1", "n")), d("q", ("$(runes.x)", "n"))]]], "env": []},
